@@ -647,7 +647,33 @@ pub fn gen_scenario(seed: u64, cfg: &GenCfg) -> Scenario {
     };
     let resmap = gen_resmap(&mut rng, nres);
     let mut budget = if cfg.big { 100 + rng.below(200) as usize } else { 1 + rng.below(cfg.max_sys as u64) as usize };
-    let regs = gen_regs(&mut rng, cfg, &k, &resmap, &mut budget, 0, false);
+    let mut regs = gen_regs(&mut rng, cfg, &k, &resmap, &mut budget, 0, false);
+    if cfg.max_sys > 8 && rng.chance(1, 30) {
+        // a very wide stage: dozens of pairwise compatible systems (readers only) with a few
+        // distinct running-time hints, i.e. many groups and many ties among them
+        let n = 7 + rng.below(42) as usize;
+        let hints: Vec<u8> = (0..1 + rng.below(3)).map(|_| rng.below(6) as u8).collect();
+        let unnamed = rng.chance(1, 4);
+        let mut burst = Vec::new();
+        for i in 0..n {
+            let mut reads: Vec<usize> = (0..nres).filter(|_| rng.chance(1, 6)).collect();
+            reads.truncate(4);
+            burst.push(Reg::Sys {
+                name: if unnamed && rng.chance(1, 2) { String::new() } else { format!("wide{}", i) },
+                deps: vec![],
+                reads,
+                writes: vec![],
+                hint: *rng.pick(&hints),
+                expect: false,
+                typed: false,
+            });
+        }
+        if rng.chance(1, 3) {
+            burst.push(Reg::Barrier);
+        }
+        burst.extend(regs);
+        regs = burst;
+    }
     let present = (0..nres).map(|_| rng.chance(1, 2)).collect();
     let pool = PoolCfg {
         supplied: if rng.chance(1, 2) { Some(1 + rng.below(16) as usize) } else { None },
